@@ -24,9 +24,69 @@ def SPh.hold : SPh → Nat
   | .preOwnStop | .notifying | .preDec => 1
   | _ => 0
 
+/-- the stop callback has not yet done its `fetch_add` -/
+def SPh.early : SPh → Bool
+  | .idle | .begun | .cbEnter => true
+  | _ => false
+
 def SPh.sd : SPh → Nat
   | .dlv1 | .dlv2 => 1
   | _ => 0
+
+/-! ### evaluation lemmas for the phase classifiers (so that `simp` never unfolds them on a variable) -/
+
+@[simp] theorem pend_run : CPh.pend .run = true := rfl
+@[simp] theorem dlv_run : CPh.dlv .run = false := rfl
+@[simp] theorem pend_claimed : CPh.pend .claimed = true := rfl
+@[simp] theorem dlv_claimed : CPh.dlv .claimed = false := rfl
+@[simp] theorem pend_preX : CPh.pend .preX = true := rfl
+@[simp] theorem dlv_preX : CPh.dlv .preX = false := rfl
+@[simp] theorem pend_preStop : CPh.pend .preStop = true := rfl
+@[simp] theorem dlv_preStop : CPh.dlv .preStop = false := rfl
+@[simp] theorem pend_notifying : CPh.pend .notifying = true := rfl
+@[simp] theorem dlv_notifying : CPh.dlv .notifying = false := rfl
+@[simp] theorem pend_preDec : CPh.pend .preDec = true := rfl
+@[simp] theorem dlv_preDec : CPh.dlv .preDec = false := rfl
+@[simp] theorem pend_dlv1 : CPh.pend .dlv1 = false := rfl
+@[simp] theorem dlv_dlv1 : CPh.dlv .dlv1 = true := rfl
+@[simp] theorem pend_dlv2 : CPh.pend .dlv2 = false := rfl
+@[simp] theorem dlv_dlv2 : CPh.dlv .dlv2 = true := rfl
+@[simp] theorem pend_fin : CPh.pend .fin = false := rfl
+@[simp] theorem dlv_fin : CPh.dlv .fin = false := rfl
+@[simp] theorem hold_idle : SPh.hold .idle = 0 := rfl
+@[simp] theorem sd_idle : SPh.sd .idle = 0 := rfl
+@[simp] theorem hold_begun : SPh.hold .begun = 0 := rfl
+@[simp] theorem sd_begun : SPh.sd .begun = 0 := rfl
+@[simp] theorem hold_cbEnter : SPh.hold .cbEnter = 0 := rfl
+@[simp] theorem sd_cbEnter : SPh.sd .cbEnter = 0 := rfl
+@[simp] theorem hold_preOwnStop : SPh.hold .preOwnStop = 1 := rfl
+@[simp] theorem sd_preOwnStop : SPh.sd .preOwnStop = 0 := rfl
+@[simp] theorem hold_notifying : SPh.hold .notifying = 1 := rfl
+@[simp] theorem sd_notifying : SPh.sd .notifying = 0 := rfl
+@[simp] theorem hold_preDec : SPh.hold .preDec = 1 := rfl
+@[simp] theorem sd_preDec : SPh.sd .preDec = 0 := rfl
+@[simp] theorem hold_dlv1 : SPh.hold .dlv1 = 0 := rfl
+@[simp] theorem sd_dlv1 : SPh.sd .dlv1 = 1 := rfl
+@[simp] theorem hold_dlv2 : SPh.hold .dlv2 = 0 := rfl
+@[simp] theorem sd_dlv2 : SPh.sd .dlv2 = 1 := rfl
+@[simp] theorem hold_cbRet : SPh.hold .cbRet = 0 := rfl
+@[simp] theorem sd_cbRet : SPh.sd .cbRet = 0 := rfl
+@[simp] theorem hold_ret : SPh.hold .ret = 0 := rfl
+@[simp] theorem sd_ret : SPh.sd .ret = 0 := rfl
+@[simp] theorem hold_fin : SPh.hold .fin = 0 := rfl
+@[simp] theorem sd_fin : SPh.sd .fin = 0 := rfl
+
+@[simp] theorem early_idle : SPh.early .idle = true := rfl
+@[simp] theorem early_begun : SPh.early .begun = true := rfl
+@[simp] theorem early_cbEnter : SPh.early .cbEnter = true := rfl
+@[simp] theorem early_preOwnStop : SPh.early .preOwnStop = false := rfl
+@[simp] theorem early_notifying : SPh.early .notifying = false := rfl
+@[simp] theorem early_preDec : SPh.early .preDec = false := rfl
+@[simp] theorem early_dlv1 : SPh.early .dlv1 = false := rfl
+@[simp] theorem early_dlv2 : SPh.early .dlv2 = false := rfl
+@[simp] theorem early_cbRet : SPh.early .cbRet = false := rfl
+@[simp] theorem early_ret : SPh.early .ret = false := rfl
+@[simp] theorem early_fin : SPh.early .fin = false := rfl
 
 def cntP (ch : List Child) : Nat := ch.countP (fun c => c.ph.pend)
 def cntD (ch : List Child) : Nat := ch.countP (fun c => c.ph.dlv)
@@ -58,6 +118,24 @@ theorem cntD_pos {ch : List Child} {j : Nat} {c : Child} (h : ch[j]? = some c) (
   unfold cntD
   exact List.countP_pos_iff.mpr ⟨ch[j], List.getElem_mem hj, by rw [he]; exact hp⟩
 
+theorem cntP_set_same {ch : List Child} {j : Nat} {c c' : Child} (h : ch[j]? = some c)
+    (hp : c'.ph = c.ph) : cntP (ch.set j c') = cntP ch := by
+  rw [cntP_set h, hp]
+  cases hq : c.ph.pend
+  · simp
+  · have := cntP_pos h hq
+    simp only [if_true]
+    omega
+
+theorem cntD_set_same {ch : List Child} {j : Nat} {c c' : Child} (h : ch[j]? = some c)
+    (hp : c'.ph = c.ph) : cntD (ch.set j c') = cntD ch := by
+  rw [cntD_set h, hp]
+  cases hq : c.ph.dlv
+  · simp
+  · have := cntD_pos h hq
+    simp only [if_true]
+    omega
+
 /-! ### projections of `touch` -/
 
 section touch
@@ -88,7 +166,8 @@ end touch
 structure InvA (n : Nat) (s : St) : Prop where
   len : s.ch.length = n
   rc : s.zeroed = false → s.refCount = cntP s.ch + s.stopPh.hold ∧ 1 ≤ s.refCount
-  z : s.zeroed = true → cntP s.ch = 0 ∧ s.stopPh.hold = 0 ∧ s.refCount ≤ 1
+  z : s.zeroed = true → cntP s.ch = 0 ∧ s.stopPh.hold = 0 ∧ s.refCount ≤ 1 ∧
+    (s.stopPh.early = true → s.refCount = 0)
   one : cntD s.ch + s.stopPh.sd + s.delivered = (if s.zeroed then 1 else 0)
 
 theorem cntP_replicate_init (n : Nat) : cntP (List.replicate n Child.init) = n := by
@@ -380,5 +459,97 @@ theorem step_of_mem_next {cfg : Config} {s s' : St} {l : Lbl} (h : (l, s') ∈ (
   rcases mem_next h with ⟨j, _, h⟩ | h
   · exact step_of_stepChild h
   · exact step_of_stepStop h
+
+set_option linter.unusedSimpArgs false
+
+/-- closes the arithmetic of one case of `invA_step` -/
+syntax "inva_fin" (term)? : tactic
+macro_rules
+  | `(tactic| inva_fin $hc) => `(tactic| (
+      refine ⟨?_, ?_, ?_, ?_⟩ <;>
+      simp only [setCh, signalSt, List.length_set, touch_refCount, touch_zeroed, touch_delivered, touch_stopPh,
+        touch_ch, cntP_set $hc, cntD_set $hc,
+        pend_run, pend_claimed, pend_preX, pend_preStop, pend_notifying, pend_preDec, pend_dlv1, pend_dlv2, pend_fin,
+        dlv_run, dlv_claimed, dlv_preX, dlv_preStop, dlv_notifying, dlv_preDec, dlv_dlv1, dlv_dlv2, dlv_fin,
+        hold_idle, hold_begun, hold_cbEnter, hold_preOwnStop, hold_notifying, hold_preDec, hold_dlv1, hold_dlv2, hold_cbRet, hold_ret, hold_fin,
+        early_idle, early_begun, early_cbEnter, early_preOwnStop, early_notifying, early_preDec, early_dlv1, early_dlv2, early_cbRet, early_ret, early_fin,
+        sd_idle, sd_begun, sd_cbEnter, sd_preOwnStop, sd_notifying, sd_preDec, sd_dlv1, sd_dlv2, sd_cbRet, sd_ret, sd_fin,
+        if_true, if_false, Bool.false_eq_true, false_implies, true_implies, forall_const, reduceCtorEq, and_self, and_true, true_and, false_and, and_false, Nat.le_refl, Nat.zero_le, *] at * <;>
+      omega))
+  | `(tactic| inva_fin) => `(tactic| (
+      refine ⟨?_, ?_, ?_, ?_⟩ <;>
+      simp only [setCh, List.length_set, signalSt, touch_refCount, touch_zeroed, touch_delivered, touch_stopPh, touch_ch,
+        hold_idle, hold_begun, hold_cbEnter, hold_preOwnStop, hold_notifying, hold_preDec, hold_dlv1, hold_dlv2, hold_cbRet, hold_ret, hold_fin,
+        early_idle, early_begun, early_cbEnter, early_preOwnStop, early_notifying, early_preDec, early_dlv1, early_dlv2, early_cbRet, early_ret, early_fin,
+        sd_idle, sd_begun, sd_cbEnter, sd_preOwnStop, sd_notifying, sd_preDec, sd_dlv1, sd_dlv2, sd_cbRet, sd_ret, sd_fin,
+        if_true, if_false, Bool.false_eq_true, false_implies, true_implies, forall_const, reduceCtorEq, and_self, and_true, true_and, false_and, and_false, Nat.le_refl, Nat.zero_le, *] at * <;>
+      omega))
+
+theorem invA_step {cfg : Config} {s s' : St} (hi : InvA cfg.n s) (hs : Step cfg s s') :
+    InvA cfg.n s' := by
+  obtain ⟨hlen, hrc, hz, hone⟩ := hi
+  cases hs with
+  | cClaim j c o hc hp ho =>
+    have h3 := cntP_pos hc (by simp [hp])
+    cases hzz : s.zeroed <;> cases he : s.stopPh.early <;> inva_fin hc
+  | cDereg j c hc hp hcb =>
+    have h3 := cntP_pos hc (by simp [hp])
+    cases hzz : s.zeroed <;> cases he : s.stopPh.early <;> inva_fin hc
+  | cNoX j c hc hp hv =>
+    have h3 := cntP_pos hc (by simp [hp])
+    cases hzz : s.zeroed <;> cases he : s.stopPh.early <;> inva_fin hc
+  | cXwin j c hc hp hv hd =>
+    have h3 := cntP_pos hc (by simp [hp])
+    cases hzz : s.zeroed <;> cases he : s.stopPh.early <;> inva_fin hc
+  | cStopAlready j c hc hp ho =>
+    have h3 := cntP_pos hc (by simp [hp])
+    cases hzz : s.zeroed <;> cases he : s.stopPh.early <;> inva_fin hc
+  | cStopFirst j c hc hp ho =>
+    have h3 := cntP_pos hc (by simp [hp])
+    cases hzz : s.zeroed <;> cases he : s.stopPh.early <;> inva_fin hc
+  | cExit j c hc hp hcur hg =>
+    have h3 := cntP_pos hc (by simp [hp])
+    cases hzz : s.zeroed <;> cases he : s.stopPh.early <;> inva_fin hc
+  | cDecLast j c hc hp hr =>
+    have h3 := cntP_pos hc (by simp [hp])
+    cases hzz : s.zeroed <;> cases he : s.stopPh.early <;> inva_fin hc
+  | cDec j c hc hp hr =>
+    have h3 := cntP_pos hc (by simp [hp])
+    cases hzz : s.zeroed <;> cases he : s.stopPh.early <;> inva_fin hc
+  | cDestruct j c hc hp hb =>
+    have h3 := cntD_pos hc (by simp [hp])
+    cases hzz : s.zeroed <;> cases he : s.stopPh.early <;> inva_fin hc
+  | cSignal j c hc hp =>
+    have h3 := cntD_pos hc (by simp [hp])
+    cases hzz : s.zeroed <;> cases he : s.stopPh.early <;> inva_fin hc
+  | nTake t k ck hn hcur hk h0 =>
+    have e1 := cntP_set_same (c' := { ck with cbst := 1, notified := true }) hk rfl
+    have e2 := cntD_set_same (c' := { ck with cbst := 1, notified := true }) hk rfl
+    cases hzz : s.zeroed <;> cases he : s.stopPh.early <;> inva_fin
+  | nClaim t k ck hn hcur hk h1 hr =>
+    have h3 := cntP_pos hk (by simp [hr])
+    cases hzz : s.zeroed <;> cases he : s.stopPh.early <;> inva_fin hk
+  | nRet t k ck hn hcur hk h1 =>
+    have e1 := cntP_set_same (c' := { ck with cbst := 2 }) hk rfl
+    have e2 := cntD_set_same (c' := { ck with cbst := 2 }) hk rfl
+    cases hzz : s.zeroed <;> cases he : s.stopPh.early <;> inva_fin
+  | nRetNested t k ck hn hcur hk h1 hf => cases hzz : s.zeroed <;> cases he : s.stopPh.early <;> inva_fin
+  | sBegin hp => cases hzz : s.zeroed <;> cases he : s.stopPh.early <;> inva_fin
+  | sCasCb hp hr => cases hzz : s.zeroed <;> cases he : s.stopPh.early <;> inva_fin
+  | sCasNo hp hr => cases hzz : s.zeroed <;> cases he : s.stopPh.early <;> inva_fin
+  | sAddLate hp hr => cases hzz : s.zeroed <;> cases he : s.stopPh.early <;> inva_fin
+  | sAdd hp hr => cases hzz : s.zeroed <;> cases he : s.stopPh.early <;> inva_fin
+  | sStopAlready hp ho => cases hzz : s.zeroed <;> cases he : s.stopPh.early <;> inva_fin
+  | sStopFirst hp ho => cases hzz : s.zeroed <;> cases he : s.stopPh.early <;> inva_fin
+  | sExit hp hcur hg => cases hzz : s.zeroed <;> cases he : s.stopPh.early <;> inva_fin
+  | sDecLast hp hr => cases hzz : s.zeroed <;> cases he : s.stopPh.early <;> inva_fin
+  | sDec hp hr => cases hzz : s.zeroed <;> cases he : s.stopPh.early <;> inva_fin
+  | sDestruct hp => cases hzz : s.zeroed <;> cases he : s.stopPh.early <;> inva_fin
+  | sSignal hp => cases hzz : s.zeroed <;> cases he : s.stopPh.early <;> inva_fin
+  | sCbRet hp => cases hzz : s.zeroed <;> cases he : s.stopPh.early <;> inva_fin
+  | sRet hp => cases hzz : s.zeroed <;> cases he : s.stopPh.early <;> inva_fin
+
+theorem invA {cfg : Config} (hn : 0 < cfg.n) {s : St} (h : Reach (sys cfg) s) : InvA cfg.n s :=
+  invariant (InvA cfg.n) (invA_init cfg hn) (fun _ _ _ hi hm => invA_step hi (step_of_mem_next hm)) h
 
 end Unifex.Proto.WhenAll
